@@ -19,6 +19,11 @@ Engine E2 (exhaustive product), level "exploration", exhaustive over the finite 
                                                     every value op, UPPER/LOWER/TRIM/LTRIM/RTRIM with and without characters,
                                                     cast and uncast operator contexts in the select list, and every boolean
                                                     context as the WHERE clause; reference = the Python list
+  fvalx FVAL_DOCS x flattened inputs x 2 exports x   the same operations where the VALUE is consumed *outside* the SELECT that
+        8 consumers x (the same ops)                holds the FLATTEN: the flattened rows are exported by a CTE / a derived
+                                                    table in FROM / a view and every op, text function, context and WHERE
+                                                    predicate is applied in the outer query, the column written unqualified,
+                                                    qualified by the CTE / view name, and qualified by an outer alias
   route ROUTE_DOCS (every JSON escape) x texts x     the route of the document into a VARIANT column: SQL literal ('' and \' quote
         ROUTES x relevant paths x ops                escapes, $$..$$), bound parameter (%s, %(name)s, ?), executemany, session
                                                     variable (SET doc = '..' then INSERT .. PARSE_JSON($doc) / TRY_PARSE_JSON /
@@ -34,6 +39,12 @@ Engine E2 (exhaustive product), level "exploration", exhaustive over the finite 
                                                     extraction, a path on a subquery / CTE column that was itself
                                                     extracted; colon, bracket and GET_PATH syntax inside and outside; on
                                                     the table column (all rows at once) and on a PARSE_JSON literal
+
+  sess  families of statements differing in letter   one session per history: every permutation of the statements of a family
+        case only x all permutations               (the key of a path step at depth 1 / 2 in colon, quoted, bracket and
+                                                    GET_PATH syntax x ops and as WHERE; the text of a $$..$$ / '..' document;
+                                                    the compared string literal), each answer = Python navigation whatever
+                                                    the session ran before
 
 The reference is mc/ref/json_nav.py: Python navigation of the json.loads-ed document plus Snowflake's documented
 conversions; expectations never come from fakesnow.
@@ -61,6 +72,8 @@ Clauses
   C11.context_uncast  (7) the same over the bare extraction where the operator matches the value's kind
   C11.split               SPLIT gives the list of parts (a JSON array of strings)
   C11.nested          (1,2,7) nested navigation = the composition of the Python navigations
+  C11.session         (1,2,3) the answer to a statement is the navigated value whatever the session ran before (statements
+                          that differ from earlier ones in letter case only: JSON keys and JSON text are case-sensitive)
   C11.route           (1,2,3) whatever the route by which a document reached the column / the engine, it navigates like
                           the Python document
 
@@ -583,10 +596,12 @@ def _world(tier):
         raw.execute("create or replace table db1.s1.kk (k tinyint, t integer, id integer, x boolean)")
         for s in split_setup(range(len(SPLIT_STRINGS))):
             cur.execute(s)
-        for s in nest_load_sql(nest_docs_for(tier)):
+        for s in nest_load_sql(nest_docs_for(tier)) + sess_load_sql():
             cur.execute(s)
         for s in fval_load_sql(range(len(fval_docs_for(tier))), tier) + fsplit_load_sql(range(len(FSPLIT_STRINGS))):
             cur.execute(s)
+        for ii, xi in sorted({(i[1], i[2]) for i in fvalx_items(tier)}):
+            cur.execute(fval_view_sql(FVAL_INPUTS[ii], FVAL_EXPORTS[xi]))
         w = _W[tier] = {"fs": fs, "conn": conn, "cur": cur, "docs": docs, "raw": raw, "kk": None}
     return w
 
@@ -669,6 +684,8 @@ CLASS_FEATURES: dict = {
     "C11.nested": ("nb", "w", "ic", "oc", "xkind", "res"),
     # the route by which the document reached the VARIANT column / the engine; esc = which escapes its text needs
     "C11.route": ("route", "op", "kind", "esc"),
+    # one session, statements differing in letter case only: what varies, written shape, op, first / later statement
+    "C11.session": ("vary", "fc", "op", "pos"),
 }
 
 
@@ -1817,50 +1834,135 @@ def fval_lists(inp, tier):
 
 
 def _fval_stmt(inp, variant, cond=None, single=False):
-    """-> (head, leading column, tail, VALUE text)"""
+    """-> (head, leading column, tail, VALUE text, how a WHERE predicate is attached to the tail)"""
     _iid, table, tpl = inp
     _vid, talias, falias, val = variant
     where = "" if single else f" where id in (select id from kk where {cond})"
     if talias:
-        return "", "t.id", f" from (select * from {table}{where}) t, lateral flatten(input => {tpl.format(t='t.')}) {falias}", val
-    return f"with s as (select * from {table}{where}) ", "id", f" from s, lateral flatten(input => {tpl.format(t='')}) {falias}", val
+        return "", "t.id", f" from (select * from {table}{where}) t, lateral flatten(input => {tpl.format(t='t.')}) {falias}", val, " where "
+    return f"with s as (select * from {table}{where}) ", "id", f" from s, lateral flatten(input => {tpl.format(t='')}) {falias}", val, " where "
+
+
+# Where the VALUE is consumed. FVAL_VARIANTS above: in the SELECT that holds the FLATTEN. Below: the flattened rows are
+# exported (id, VALUE) by an inner select -- FVAL_EXPORTS: with / without FLATTEN alias -- and every operation is applied in
+# an outer query that reads them from a CTE, from a derived table in FROM, or from a view, referring to the column
+# unqualified, qualified by the name of the CTE / view, or qualified by an alias given to it in the outer FROM.
+FVAL_EXPORTS = [("f", "f", "f.value"), ("bare", "", "value")]  # (id, FLATTEN alias, how the inner select lists VALUE)
+FVAL_CONSUMERS = [  # (id, kind, outer FROM item over {n} = name of the CTE / view, how VALUE is written outside)
+    ("cte.bare", "cte", "{n}", "value"),
+    ("cte.name", "cte", "{n}", "{n}.value"),
+    ("cte.alias", "cte", "{n} i", "i.value"),
+    ("derived.bare", "derived", "s", "value"),
+    ("derived.alias", "derived", "s", "s.value"),
+    ("view.bare", "view", "{n}", "value"),
+    ("view.name", "view", "{n}", "{n}.value"),
+    ("view.alias", "view", "{n} i", "i.value"),
+]
+
+
+def fvalx_items(tier):
+    """both tiers: the complete product inputs x exports x consumers (the tiers differ in the element alphabet)"""
+    return [("fvalx", ii, xi, ci) for ii in range(len(FVAL_INPUTS)) for xi in range(len(FVAL_EXPORTS)) for ci in range(len(FVAL_CONSUMERS))]
+
+
+def _fval_view_name(inp, export):
+    return f"fvw_{inp[0]}_{export[0]}"
+
+
+def _fval_inner(inp, export, where=""):
+    _iid, table, tpl = inp
+    _xid, falias, val = export
+    return f"select t.id, {val} from (select * from {table}{where}) t, lateral flatten(input => {tpl.format(t='t.')}) {falias}".rstrip()
+
+
+def fval_view_sql(inp, export):
+    """the view exporting the flattened rows of the whole table (rows are selected outside, by id)"""
+    _iid, table, tpl = inp
+    _xid, falias, val = export
+    body = f"select t.id, {val} from {table} t, lateral flatten(input => {tpl.format(t='t.')}) {falias}".rstrip()
+    return f"create or replace view {_fval_view_name(inp, export)} as {body}"
+
+
+def _fvalx_stmt(inp, export, consumer, cond=None, single=False):
+    """-> (head, leading column, tail, VALUE text, how a WHERE predicate is attached to the tail)"""
+    _cid, kind, frm, val = consumer
+    where = "" if single else f" where id in (select id from kk where {cond})"
+    if kind == "cte":
+        return f"with items as ({_fval_inner(inp, export, where)}) ", "id", " from " + frm.format(n="items"), val.format(n="items"), " where "
+    if kind == "derived":
+        return "", "id", f" from ({_fval_inner(inp, export, where)}) {frm}", val, " where "
+    n = _fval_view_name(inp, export)
+    return "", "id", f" from {frm.format(n=n)}{where}", val.format(n=n), " and " if where else " where "
 
 
 def fval_ops(tier):
     return [o for o in ALL_IDS]
 
 
+FVAL_DEPS = {"c_trim_eq": ("trim",)}  # besides OPS[..]["deps"]: ops whose verdict must be right on a row before this one is judged
+
+
 def work_fval(item, acc, tier):
-    """item = ('fval', input index, variant index)"""
+    """item = ('fval', input index, variant index): every operation in the SELECT that holds the FLATTEN"""
     _, ii, vi = item
     inp, variant = FVAL_INPUTS[ii], FVAL_VARIANTS[vi]
+    plan = {"id": variant[0], "stmt": lambda cond=None, single=False: _fval_stmt(inp, variant, cond, single),
+            "fco": "value", "case": None, "ordered": True, "setup": [], "sample": vi == 0}  # fmt: skip
+    return _fval_run(acc, tier, inp, plan)
+
+
+def work_fvalx(item, acc, tier):
+    """item = ('fvalx', input index, export index, consumer index): every operation in an outer query that reads the
+    flattened rows from a CTE / derived table / view. Through a view the outer statement holds an ordinary VARIANT
+    column without a path: that is the written shape 'root' of the column layer (same class keys). Without an ORDER BY
+    nothing promises the outer query the order of the inner one: rows are compared as a multiset per input row."""
+    _, ii, xi, ci = item
+    inp, export, consumer = FVAL_INPUTS[ii], FVAL_EXPORTS[xi], FVAL_CONSUMERS[ci]
+    view = consumer[1] == "view"
+    plan = {"id": f"{export[0]}>{consumer[0]}", "stmt": lambda cond=None, single=False: _fvalx_stmt(inp, export, consumer, cond, single),
+            "fco": "root" if view else "value>" + consumer[0], "case": consumer[0], "ordered": False,
+            "setup": [fval_view_sql(inp, export)] if view else [], "sample": xi == 0 and ii == 0}  # fmt: skip
+    return _fval_run(acc, tier, inp, plan)
+
+
+def _fval_run(acc, tier, inp, plan):
     w = _world(tier)
     cur = w["cur"]
+    stmt = plan["stmt"]
     lists = fval_lists(inp, tier)
     allids = list(range(len(lists)))
     _set_kk(w, ("fval", inp[1], tier), [i for i in allids])  # t = row id: a data-dependent error is narrowed down to rows
-    setup_of = (lambda i: fsplit_load_sql([i])) if inp[0] == "split" else (lambda i: fval_load_sql([i], tier))
+    base_setup = (lambda i: fsplit_load_sql([i])) if inp[0] == "split" else (lambda i: fval_load_sql([i], tier))
+    setup_of = lambda i: base_setup(i) + plan["setup"]  # noqa: E731
 
     def evaluate(exprs, rowset, judge_row, clause_feats, where="", ordered=True):
         """exprs: [(key, sql text, mode)]; judge_row(key, i) -> [expected per output row]. All over the rows `rowset`.
         ordered=False: the output rows of one input row are compared as a multiset (a WHERE clause: no order promised)"""
         ids = sorted(rowset)
         _set_excluded(w, set(allids) - set(ids))
+        ordered = ordered and plan["ordered"]
         right = {}
         res = []
+
+        def full(cond=None, single=False):
+            head, pre, tail, _v, wj = stmt(cond, single)
+            if not where:
+                return head, pre, tail
+            return head, pre, tail + (wj + where if wj == " where " else f"{wj}({where})")
+
         for ch in _chunks(exprs, BATCH):
-            head, pre, tail, _v = _fval_stmt(inp, variant, "not x")
-            res += run_exprs(cur, acc, [e[1] for e in ch], [pre], tail + where, head)
+            head, pre, tail = full("not x")
+            res += run_exprs(cur, acc, [e[1] for e in ch], [pre], tail, head)
         for (key, e, mode), r in zip(exprs, res):
             per_id = None
             if r[0] == "err" and len(ids) > 1:
-                head, pre, tail, _v = _fval_stmt(inp, variant, "k = -1")
-                if run_exprs(cur, acc, [e], [pre], tail + where, head)[0][0] == "ok":  # the error depends on the data
+                head, pre, tail = full("k = -1")
+                if run_exprs(cur, acc, [e], [pre], tail, head)[0][0] == "ok":  # the error depends on the data
                     acc.count("refined_per_value")
                     per_id = {}
                     for i in ids:
-                        head, pre, tail, _v = _fval_stmt(inp, variant, f"id = {i}")
-                        rr = run_exprs(cur, acc, [e], [pre], tail + where, head)[0]
+                        head, pre, tail = full(f"id = {i}")
+                        rr = run_exprs(cur, acc, [e], [pre], tail, head)[0]
                         per_id[i] = ("ok", _by_id(rr[1]).get(i, ())) if rr[0] == "ok" else rr
             if per_id is None:
                 got = _by_id(r[1]) if r[0] == "ok" else None
@@ -1885,7 +1987,7 @@ def work_fval(item, acc, tier):
                 for n, (exp, el) in enumerate(cells):
                     good = whole and (not exps or J.matches(mode, exp, rr[1][n]))
                     if exp is not None and exp is not J.MISSING:
-                        acc.nontrivial(("fval", inp[0], key, canon(el)))
+                        acc.nontrivial(("fval", inp[0], plan["id"], key, canon(el)))
                     clause, feats = clause_feats(key, el)
                     fk = (clause, tuple(sorted(feats.items())))
                     st = stats.setdefault(fk, [0, 0, None])
@@ -1894,28 +1996,30 @@ def work_fval(item, acc, tier):
                         row_ok = False
                         st[1] += 1
                         if st[2] is None:
-                            head, _pre, tail, _v = _fval_stmt(inp, variant, single=True)
-                            sql1 = f"{head}select {e}{tail}{where}"
+                            head, _pre, tail = full(single=True)
+                            sql1 = f"{head}select {e}{tail}"
                             st[2] = (
                                 {"sql": sql1, "list": lists[i], "expected": repr([x for x, _el in exps]), "observed": _observed(rr)},
-                                _replay_payload(setup_of(i), sql1, [enc(mode, x) for x, _el in exps], rows="seq"),
+                                _replay_payload(setup_of(i), sql1, [enc(mode, x) for x, _el in exps], rows="seq" if ordered else "bag"),
                             )
                 if row_ok:
                     ok_rows.add(i)
             right[key] = ok_rows
             acc.count("evaluations", len(ids))
-            acc.obs(("fval", inp[0], variant[0], key, where, sig))
+            acc.obs(("fval", inp[0], plan["id"], key, where, sig))
             for fk in sorted(stats):
                 n, nfail, example = stats[fk]
                 acc.outcome(("fval", key, fk, "fail" if nfail else "ok"))
                 _record(acc, fk[0], dict(fk[1]), n, nfail, example)
         return right
 
-    val = variant[3]
+    val = stmt("true")[3]
+    extra = {"case": plan["case"]} if plan["case"] else {}
 
     def feats_of(o, el):
-        k = "none" if el is J.MISSING else J.kind_of(el)
-        return clause_of(o, None if el is J.MISSING else el) if el is not J.MISSING else "C11.flatten", {"fco": "value", "op": o, "kind": k, "source": "fval"}
+        if el is J.MISSING:
+            return "C11.flatten", dict({"fco": plan["fco"], "op": o, "kind": "none", "source": "fval"}, **extra)
+        return clause_of(o, el), {"fco": plan["fco"], "op": o, "kind": J.kind_of(el), "source": "fval"}
 
     def rows_for(o, among):
         return {i for i in among if lists[i] and all(expected(o, el) is not J.UNDEMANDED for el in lists[i])}
@@ -1923,19 +2027,26 @@ def work_fval(item, acc, tier):
     def judge(o, i):
         return [(expected(o, el), el) for el in lists[i]]
 
-    # level 0: VALUE itself; then every other op on the rows where VALUE is right
+    # level 0: VALUE itself; then every other op on the rows where VALUE and the ops it is built from are right
     right = evaluate([("raw", OPS["raw"]["tpl"].format(x=val), "json")], set(allids), judge, feats_of)
     good0 = right["raw"]
     acc.count("shadowed_cells", len(allids) - len(good0))
+    done = {"raw": good0}
+
+    def deps_of(o):
+        return tuple(d for d in OPS[o]["deps"] + FVAL_DEPS.get(o, ()) if d != "raw")
+
     ops = [o for o in ALL_IDS if o != "raw"]
-    groups: dict = {}
-    for o in ops:
-        rs = frozenset(rows_for(o, good0))
-        if rs:
-            groups.setdefault(rs, []).append(o)
-    done = {}
-    for rs in sorted(groups, key=sorted):
-        done.update(evaluate([(o, OPS[o]["tpl"].format(x=val), OPS[o]["mode"]) for o in groups[rs]], rs, judge, feats_of))
+    for level in ([o for o in ops if not deps_of(o)], [o for o in ops if deps_of(o)]):
+        groups: dict = {}
+        for o in level:
+            cand = rows_for(o, good0)
+            rs = frozenset(cand.intersection(*[done.get(d, set()) for d in deps_of(o)]))
+            acc.count("shadowed_cells", len(cand) - len(rs))
+            if rs:
+                groups.setdefault(rs, []).append(o)
+        for rs in sorted(groups, key=sorted):
+            done.update(evaluate([(o, OPS[o]["tpl"].format(x=val), OPS[o]["mode"]) for o in groups[rs]], rs, judge, feats_of))
     # WHERE placement: the rows whose element satisfies the predicate, in order
     for o in FVAL_WHERE:
         rs = rows_for(o, good0) & done.get(o, set())
@@ -1946,12 +2057,12 @@ def work_fval(item, acc, tier):
             return [(el, el) for el in lists[i] if expected(o, el) is True]
 
         def feats_where(_key, el, o=o):
-            return "C11.context", {"fco": "value", "op": o + ".where", "kind": "arr", "source": "fval"}
+            return "C11.context", {"fco": plan["fco"], "op": o + ".where", "kind": "arr", "source": "fval"}
 
-        evaluate([(o + ".where", val, "json")], rs, judge_where, feats_where, where=" where " + OPS[o]["tpl"].format(x=val), ordered=False)
-    if vi == 0:
-        head, _pre, tail, _v = _fval_stmt(inp, variant, single=True)
-        acc.sample({"mode": "fval", "input": inp[2], "variant": variant[0], "rows": len(lists), "one_list": lists[min(3, len(lists) - 1)],
+        evaluate([(o + ".where", val, "json")], rs, judge_where, feats_where, where=OPS[o]["tpl"].format(x=val), ordered=False)
+    if plan["sample"]:
+        head, _pre, tail, _v, _wj = stmt(single=True)
+        acc.sample({"mode": "fval", "input": inp[2], "variant": plan["id"], "rows": len(lists), "one_list": lists[min(3, len(lists) - 1)],
                     "statements": [f"{head}select {OPS[o]['tpl'].format(x=val)}{tail}" for o in ("trim", "rtrim_chars", "c_trim_eq")]})  # fmt: skip
     return None
 
@@ -2225,6 +2336,127 @@ def work_route(item, acc, tier):
     return None
 
 
+# ---- one session, statements that differ in letter case only ----------------------------------------------------------------
+# JSON keys and JSON text are case-sensitive. A *family* is a statement template with one slot and the slot's variants, which
+# differ from each other in letter case only: the key of a path step (depth 1 / depth 2; colon, quoted colon, bracket,
+# GET_PATH syntax), the text of a document written as a $$..$$ / '..' constant, the string literal an extraction is compared
+# with. Every permutation of the family's statements is one history, executed on a session (connection) of its own in that
+# order: each pair of variants is met in both orders, directly adjacent and with other statements in between. Every answer is
+# what Python navigation of the document gives -- whatever the session ran before.
+SESS_KEYS = ["ab", "Ab", "AB", "aB"]  # the last one is in no document: a path through it is missing
+SESS_DOC = {"ab": "s1", "Ab": "S2", "AB": 3, "o": {"ab": 4, "Ab": "s5", "AB": [6]}}
+SESS_LIT_DOCS = [{"k": "abc", "n": [1, 2]}, {"k": "Abc", "n": [1, 2]}, {"k": "ABC", "n": [1, 2]}, {"K": "abc", "n": [1, 2]}]
+SESS_CMP = ["s1", "S1"]
+SESS_PATH_OPS = ["raw", "varchar", "upper", "u_isnull", "c_rhs_eq"]
+SESS_SYN = ["colon", "quoted", "bracket", "getpath"]
+
+
+def sess_load_sql():
+    return ["create or replace table jc (id int, v variant)", f"insert into jc select 0, parse_json({_sqlstr(canon(SESS_DOC))})"]
+
+
+def sess_families():
+    """[(family id, class features, [(variant label, select expression, mode, expected)]), from-clause]"""
+    fams = []
+    for depth, prefix in ((1, ()), (2, ("o",))):
+        for sy in SESS_SYN:
+            for o in SESS_PATH_OPS:
+                stmts = []
+                for k in SESS_KEYS:
+                    steps = prefix + (k,)
+                    xsql, form = _render("v", steps, sy)
+                    stmts.append((k, OPS[o]["tpl"].format(x=xsql), OPS[o]["mode"], expected(o, J.navigate(SESS_DOC, steps))))
+                fams.append((f"key{depth}.{sy}.{o}", {"vary": f"path-key.depth{depth}", "fc": formclass(form), "op": o}, stmts, " from jc"))
+            # the same path as the WHERE clause: the row comes back exactly when the compared value is the navigated one
+            stmts = []
+            for k in SESS_KEYS:
+                steps = prefix + (k,)
+                xsql, form = _render("v", steps, sy)
+                tgt = J.navigate(SESS_DOC, steps)
+                hit = tgt is not J.MISSING and J.to_text(tgt) == J.to_text(J.navigate(SESS_DOC, prefix + ("Ab",)))
+                stmts.append((k, "count(*)", "num", 1 if hit else 0, f" where {xsql}::varchar = {_sqlstr(J.to_text(J.navigate(SESS_DOC, prefix + ('Ab',))))}"))
+            fams.append((f"key{depth}.{sy}.where", {"vary": f"path-key.depth{depth}", "fc": formclass(form), "op": "c_eq.where"}, stmts, " from jc"))
+    for quote in ("dollar", "quote"):
+        for o, steps in (("raw", ()), ("raw", ("k",)), ("varchar", ("k",)), ("upper", ("k",)), ("varchar", ("n", 1))):
+            stmts = []
+            for d in SESS_LIT_DOCS:
+                t = canon(d)
+                src = f"parse_json($${t}$$)" if quote == "dollar" else f"parse_json({_sqlstr(t)})"
+                xsql, form = _render(src, steps, "colon")
+                stmts.append((t, OPS[o]["tpl"].format(x=xsql), OPS[o]["mode"], expected(o, J.navigate(d, steps))))
+            fams.append((f"doc.{quote}.{o}.{shape_of(steps)}", {"vary": f"document-text.{quote}", "fc": formclass(form), "op": o}, stmts, ""))
+    for o, tpl, fn in (("c_eq", "{x}::varchar = {lit}", lambda t, lit: J.cmp3(t, "=", lit)), ("c_like", "{x}::varchar like {lit}", lambda t, lit: J.like3(t, lit))):
+        stmts = [(lit, tpl.format(x="v:ab", lit=_sqlstr(lit)), "bool", fn(SESS_DOC["ab"], lit)) for lit in SESS_CMP]
+        fams.append((f"cmp.{o}", {"vary": "compared-literal", "fc": "p", "op": o}, stmts, " from jc"))
+    return fams
+
+
+def work_sess(item, acc, tier):
+    """item = ('sess', family index): every permutation of the family's statements, each on a fresh session. A statement is
+    judged at a later position only if it is right as the first statement of a session (else it is the column / literal
+    layers' finding); class = what varies, the written shape, the op -- position and neighbours are left out (one class per
+    family shape, failing members listed in the example)."""
+    _, fi = item
+    w = _world(tier)
+    fid, feats, stmts, frm = sess_families()[fi]
+    sqls = [f"select {st[1]}{frm}{st[4] if len(st) > 4 else ''}" for st in stmts]
+
+    def run_history(order):
+        conn = w["fs"].connect(database="db1", schema="s1")
+        try:
+            cur = conn.cursor()
+            return [_fetch(cur, sqls[n]) for n in order]
+        finally:
+            conn.close()
+
+    def good(n, r):
+        return stmts[n][3] is J.UNDEMANDED or _judge(stmts[n][2], stmts[n][3], r)
+
+    first_ok = {}
+    results = []
+    for order in itertools.permutations(range(len(stmts))):
+        rs = run_history(order)
+        acc.count("traces")
+        acc.count("statements", len(order))
+        results.append((order, rs))
+        first_ok.setdefault(order[0], good(order[0], rs[0]))
+    sig = []
+    nfirst = nlater = fail_first = fail_later = 0
+    ex_first = ex_later = None
+    for order, rs in results:
+        for pos, (n, r) in enumerate(zip(order, rs)):
+            acc.count("evaluations")
+            sig.append((order, pos, r[0], r[1]))
+            if stmts[n][3] is J.UNDEMANDED:
+                continue  # executed as part of the history, nothing demanded of its own answer
+            if stmts[n][3] is not None and stmts[n][3] is not J.MISSING:
+                acc.nontrivial(("sess", fid, order, pos))
+            ok = good(n, r)
+            example = None if ok else (  # fmt: skip
+                {"history": [sqls[m] for m in order[: pos + 1]], "judged": sqls[n], "expected": repr(stmts[n][3]), "observed": _observed(r)},
+                {"history": [sqls[m] for m in order[:pos]], "setup": sess_load_sql(), "sql": sqls[n], "expected": enc(stmts[n][2], stmts[n][3]), "rows": "one"},
+            )
+            if pos == 0:
+                nfirst += 1
+                if not ok:
+                    fail_first += 1
+                    ex_first = ex_first or example
+            elif first_ok[n]:
+                nlater += 1
+                if not ok:
+                    fail_later += 1
+                    ex_later = ex_later or example
+            else:
+                acc.count("shadowed_cells")
+    acc.obs(("sess", fid, sig))
+    acc.outcome(("sess", fid, bool(fail_first), bool(fail_later)))
+    _record(acc, "C11.session", dict(feats, pos="first"), nfirst, fail_first, ex_first)
+    _record(acc, "C11.session", dict(feats, pos="later"), nlater, fail_later, ex_later)
+    if fi % 17 == 0:
+        acc.sample({"mode": "sess", "family": fid, "statements": sqls, "histories": len(results)})
+    return None
+
+
 def work(item, acc, tier):
     kind = item[0]
     if kind == "col":
@@ -2243,8 +2475,12 @@ def work(item, acc, tier):
         return work_nestlit(item, acc, tier)
     if kind == "fval":
         return work_fval(item, acc, tier)
+    if kind == "fvalx":
+        return work_fvalx(item, acc, tier)
     if kind == "route":
         return work_route(item, acc, tier)
+    if kind == "sess":
+        return work_sess(item, acc, tier)
     raise core.HarnessError(f"unknown item {item!r}")
 
 
@@ -2259,7 +2495,9 @@ def items_for(tier):
     items += [("nest", wi, pi) for wi in range(len(NEST_WRAPPERS)) for pi in range(len(NEST_P1[tier]))]
     items += [("nestlit", di) for di in range(len(nest_lit_docs_for(tier)))]
     items += [("fval", ii, vi) for ii in range(len(FVAL_INPUTS)) for vi in range(len(FVAL_VARIANTS))]
+    items += fvalx_items(tier)
     items += [("route", r) for r in ROUTES]
+    items += [("sess", fi) for fi in range(len(sess_families()))]
     return items
 
 
@@ -2274,7 +2512,10 @@ def run(ctx: core.Ctx):
         "document; ctor = both constructor styles of every constructor document; misc = explicit lists; nest = every "
         "nested document row x inner path x inner syntax x wrapper x outer path x outer syntax x outer op (and the inline "
         "wrappers on every nested literal document); fval = every array row x flattened input x naming variant x every "
-        "op / text function / context applied to the FLATTEN VALUE column, and every boolean context as WHERE. One evaluation "
+        "op / text function / context applied to the FLATTEN VALUE column, and every boolean context as WHERE; sess = every "
+        "permutation of every family of statements differing in letter case only, one fresh session each; fvalx = the same "
+        "ops applied in an outer query reading the flattened rows through every consumer (CTE / derived table / view x "
+        "unqualified / name-qualified / alias-qualified reference) x export naming. One evaluation "
         "= one SQL expression evaluated by fakesnow on one document. Non-trivial = distinct (source, syntax, path, op, "
         "navigated value) whose expected value is not NULL / empty."
     )
@@ -2285,7 +2526,8 @@ def run(ctx: core.Ctx):
         "an expression's value does not depend on the other expressions of the same SELECT list nor on the other rows "
         "of the table (raising statements are split down to single expressions / single target values)",
         "rows of a single-table LATERAL FLATTEN come out grouped per input row in element order (with a WHERE clause "
-        "only the multiset of rows per input row is compared)",
+        "only the multiset of rows per input row is compared; likewise when the flattened rows are read through a CTE / "
+        "derived table / view)",
     ]
     items = items_for(tier)
     ctx.pmap(work, items, chunk=1)
@@ -2305,9 +2547,14 @@ def run(ctx: core.Ctx):
             "flatten_value_rows": len(fval_docs_for(tier)),
             "flatten_value_inputs": [x[2] for x in FVAL_INPUTS],
             "flatten_value_variants": [x[0] for x in FVAL_VARIANTS],
+            "flatten_value_exports": [x[2] for x in FVAL_EXPORTS],
+            "flatten_value_consumers": [f"{x[0]}: from {x[2]} -> {x[3]}" for x in FVAL_CONSUMERS],
+            "flatten_value_consumer_items": len(fvalx_items(tier)),
             "flatten_value_elements": [canon(x) for x in (FVAL_ELEMS if tier == "thorough" else FVAL_ELEMS_QUICK)],
             "null_run_patterns": NULLRUN_PATTERNS[tier],
             "routes": ROUTES,
+            "session_families": [f[0] for f in sess_families()],
+            "session_histories_per_family": "all permutations of the family's statements (4 variants: 24, 2 variants: 2)",
             "route_documents": [canon(d) for d in ROUTE_DOCS],
             "route_ops": ROUTE_OPS[tier],
             "atoms": [canon(a) for a in (ATOMS if tier == "thorough" else ATOMS_QUICK)],
@@ -2335,10 +2582,23 @@ def check_payload(r):
     cur = conn.cursor()
     for s in r["setup"]:
         cur.execute(s)
+    for s in r.get("history", []):  # earlier statements of the same session (their own answers are not judged here)
+        _fetch(cur, s)
     got = _fetch(cur, r["sql"])
     e = r["expected"]
     if isinstance(e, dict) and e.get("raises"):
         return got[0] != "err", got
+    if r["rows"] == "bag":
+        exps = [dec(x) for x in e]
+        rest = list(got[1]) if got[0] == "ok" else []
+        ok = got[0] == "ok" and len(rest) == len(exps)
+        for m, x in exps if ok else []:
+            j = next((n for n, g in enumerate(rest) if J.matches(m, x, g)), None)
+            if j is None:
+                ok = False
+                break
+            rest.pop(j)
+        return not ok, got
     if r["rows"] == "seq":
         exps = [dec(x) for x in e]
         ok = got[0] == "ok" and len(got[1]) == len(exps) and all(J.matches(m, x, g) for (m, x), g in zip(exps, got[1]))
@@ -2366,6 +2626,8 @@ def replay(payload):
         return bad
     for s in r["setup"]:
         print("setup:   ", s[:300])
+    for s in r.get("history", []):
+        print("before:  ", s[:300])
     print("sql:     ", r["sql"])
     print("expected:", json.dumps(r["expected"]))
     bad, got = check_payload(r)
